@@ -10,6 +10,7 @@
 From Coq Require Import List ZArith NArith Bool.
 Import ListNotations.
 Require Import Gram.Model.Token Gram.Gen.TokenTables Gram.Model.Tokenizer Gram.Spec.TokenSpec Gram.Proofs.TokenizerProofs Gram.Proofs.PartitionProofs Gram.Proofs.LayoutProofs.
+Require Gram.Model.Parser Gram.Model.ParserPost Gram.Proofs.ReassocProofs Gram.Proofs.LayoutParens.
 
 Theorem C10_layout : forall gend cs ts,
   Forall ch_wf cs -> tokenize gend cs = Ok ts -> layout_ok cs ts = true.
@@ -46,3 +47,24 @@ Theorem C10_no_linebreak_from_tables :
 Proof. exact tables_no_linebreak. Qed.
 Check C10_no_linebreak_from_tables : _ /\ _ /\ _ /\ kind_lookup ends_table KLineBreak = false.
 Print Assumptions C10_no_linebreak_from_tables.
+
+(* "A separating line break is interchangeable with `;`", at the parser (Proofs/LayoutParens.v): two token lists that agree
+   token by token except that a terminator may have either terminator kind are accepted together, and the trees built -
+   raw and re-associated - are equal (by accepted-iff-sentence, uniqueness of the derivation tree and the fact that no
+   production of the generated grammar names a particular terminator kind). *)
+Theorem C10_terminators_interchangeable_acceptance : forall toks toks' memo, LayoutParens.layout_sim toks toks' ->
+  ((exists t, fst (fst (Parser.parse_stage1 toks memo)) = Parser.S1Tree t) <-> (exists t, fst (fst (Parser.parse_stage1 toks' memo)) = Parser.S1Tree t)).
+Proof. exact LayoutParens.layout_acceptance. Qed.
+Check C10_terminators_interchangeable_acceptance : forall toks toks' memo, LayoutParens.layout_sim toks toks' ->
+  ((exists t, fst (fst (Parser.parse_stage1 toks memo)) = Parser.S1Tree t) <-> (exists t, fst (fst (Parser.parse_stage1 toks' memo)) = Parser.S1Tree t)).
+Print Assumptions C10_terminators_interchangeable_acceptance.
+
+Theorem C10_terminators_interchangeable_tree : forall toks toks' memo raw m s raw' m' s', LayoutParens.layout_sim toks toks' ->
+  Parser.parse_stage1 toks memo = (Parser.S1Tree raw, m, s) -> Parser.parse_stage1 toks' memo = (Parser.S1Tree raw', m', s') ->
+  ReassocProofs.gstrip raw = ReassocProofs.gstrip raw' /\ ReassocProofs.strip (ParserPost.reassociate raw) = ReassocProofs.strip (ParserPost.reassociate raw').
+Proof. exact LayoutParens.layout_same_tree. Qed.
+Check C10_terminators_interchangeable_tree : forall toks toks' memo raw m s raw' m' s', LayoutParens.layout_sim toks toks' ->
+  Parser.parse_stage1 toks memo = (Parser.S1Tree raw, m, s) -> Parser.parse_stage1 toks' memo = (Parser.S1Tree raw', m', s') ->
+  ReassocProofs.gstrip raw = ReassocProofs.gstrip raw' /\ ReassocProofs.strip (ParserPost.reassociate raw) = ReassocProofs.strip (ParserPost.reassociate raw').
+Print Assumptions C10_terminators_interchangeable_tree.
+
